@@ -55,6 +55,9 @@ try:
     for c in checks:
         rc, out = sh(['./check', c], cwd='/verif', extra={'VERIF_REPO': wt}, timeout=3600)
         lines = out.strip().split('\n')
+        if rc == 2 or not lines[-1].startswith('check '):   # tooling failure (e.g. factgen does not build), not a verdict
+            res.setdefault('tooling_errors', {})[c] = out[-600:]
+            continue
         res['checks'][c] = {'caught': rc != 0, 'violations': sum(1 for l in lines if l.startswith('VIOLATION')),
                             'without_failing_input': sum(1 for l in lines if 'no-failing-input-found' in l), 'summary': lines[-1][:300],
                             'first_violation': next((l for l in lines if l.startswith('VIOLATION')), None)}
